@@ -243,6 +243,10 @@ def gen_lines(rng, cv, count):
         for cls in range(NCLASS):
             out.append("eps %s %s %s %s %s" % (v, ptok(rng, cv, rng.choice(pool)), hx(scalar(rng, cv.n, cls, cv)),
                                               ptok(rng, cv, rng.choice(pool)), hx(scalar(rng, cv.n, (cls * 5 + 3) % NCLASS, cv))))
+        # the result object is the first / second point operand (non-zero scalars of ordinary size)
+        for al in (".p", ".q"):
+            out.append("eps %s%s %s %x %s %x" % (v, al, ptok(rng, cv, rng.choice(pool)), 1 + rng.below(cv.n - 1),
+                                                ptok(rng, cv, rng.choice(pool)), 1 + rng.below(cv.n - 1)))
     for _ in range(count):
         k = rng.below(100)
         if k < 22:
@@ -270,7 +274,7 @@ def gen_lines(rng, cv, count):
                 kk = abs(kk) & ((1 << 64) - 1)
             out.append("epm %s %d %s %s" % (v, rng.below(2), ptok(rng, cv, P, "" if v.startswith("fix") else "P"), hx(kk)))
         elif k < 92:
-            v = rng.choice(SIM)
+            v = rng.choice(SIM) + rng.choice(["", "", ".p", ".q"])      # result object = an operand
             out.append("eps %s %s %s %s %s" % (v, ptok(rng, cv, point(rng, cv, pool)), hx(scalar(rng, cv.n, None, cv)),
                                               ptok(rng, cv, point(rng, cv, pool)), hx(scalar(rng, cv.n, None, cv))))
         else:
@@ -343,7 +347,7 @@ def matches_finding(f, r):
         return False
     if pred == "fix_identity_base":
         return (t[0] == "epm" and t[1].startswith("fix") and t[3] == "inf") or (t[0] == "eptab" and t[2] == "inf")
-    if pred == "sim_table_identity" and t[0] == "eps" and t[1] in ("trick", "joint") and r.get("context"):
+    if pred == "sim_table_identity" and t[0] == "eps" and t[1].split(".")[0] in ("trick", "joint") and r.get("context"):
         cv = CVS.get(int(r["context"].split()[1]))
         if cv is None:
             return False
